@@ -35,7 +35,7 @@ package filecachepb
 //@   property C14
 //@   nilrecv
 //@   modifies heap
-//@   preserves DayInterval.*, filter.DayInterval.*, FilterConfig_Schedule.*, FilterConfig_WeeklySchedule.*, Profile.*, FilterConfig.*, FilterConfig_Custom.*, FilterConfig_Parental.*, FilterConfig_RuleList.*, FilterConfig_SafeBrowsing.*, Access.*, CidrRange.*, Ratelimiter.*, allelems(*CidrRange), allelems(uint32), allelems(string), allelems(byte)
+//@   preserves agd.Profile.*, allelems(*agd.Profile), allelems(*Profile), FileCache.*, Device.*, allelems(*Device), AuthenticationSettings.*, Profile.*, FilterConfig.*, FilterConfig_Custom.*, FilterConfig_Parental.*, FilterConfig_RuleList.*, FilterConfig_SafeBrowsing.*, FilterConfig_Schedule.*, Access.*, CidrRange.*, Ratelimiter.*, allelems(*CidrRange), DayInterval.*, filter.DayInterval.*, FilterConfig_Schedule.*, FilterConfig_WeeklySchedule.*, Profile.*, FilterConfig.*, FilterConfig_Custom.*, FilterConfig_Parental.*, FilterConfig_RuleList.*, FilterConfig_SafeBrowsing.*, Access.*, CidrRange.*, Ratelimiter.*, allelems(*CidrRange), allelems(uint32), allelems(string), allelems(byte)
 //@   ensures the-interval-as-it-was-stored: readDay(i, x) && (i != nil ==> fresh(i))
 
 //@ func scheduleToProtobuf
@@ -53,7 +53,7 @@ package filecachepb
 //@   nilrecv
 //@   requires x != nil ==> x.Week != nil
 //@   modifies heap
-//@   preserves DayInterval.*, FilterConfig_Schedule.*, FilterConfig_WeeklySchedule.*, Profile.*, FilterConfig.*, FilterConfig_Custom.*, FilterConfig_Parental.*, FilterConfig_RuleList.*, FilterConfig_SafeBrowsing.*, Access.*, CidrRange.*, Ratelimiter.*, allelems(*CidrRange), allelems(uint32), allelems(string), allelems(byte)
+//@   preserves agd.Profile.*, allelems(*agd.Profile), allelems(*Profile), FileCache.*, Device.*, allelems(*Device), AuthenticationSettings.*, Profile.*, FilterConfig.*, FilterConfig_Custom.*, FilterConfig_Parental.*, FilterConfig_RuleList.*, FilterConfig_SafeBrowsing.*, FilterConfig_Schedule.*, Access.*, CidrRange.*, Ratelimiter.*, allelems(*CidrRange), DayInterval.*, FilterConfig_Schedule.*, FilterConfig_WeeklySchedule.*, Profile.*, FilterConfig.*, FilterConfig_Custom.*, FilterConfig_Parental.*, FilterConfig_RuleList.*, FilterConfig_SafeBrowsing.*, Access.*, CidrRange.*, Ratelimiter.*, allelems(*CidrRange), allelems(uint32), allelems(string), allelems(byte)
 //@   ensures x == nil ==> c == nil && err == nil
 //@   ensures every-day-reads-its-own-interval: x != nil && err == nil ==> c != nil && c.Week != nil &&
 //@             readDay(c.Week[0], x.Week.Sun) && readDay(c.Week[1], x.Week.Mon) && readDay(c.Week[2], x.Week.Tue) && readDay(c.Week[3], x.Week.Wed) &&
@@ -89,7 +89,7 @@ package filecachepb
 //@ func asnToInternal
 //@   property C14
 //@   modifies heap
-//@   preserves Access.*, allelems(uint32), allelems(*CidrRange), CidrRange.*, allelems(string), allelems(byte), allelems(netip.Prefix), allelems(geoip.ASN), access.ProfileConfig.*, Profile.*, FilterConfig.*, FilterConfig_Custom.*, FilterConfig_Parental.*, FilterConfig_RuleList.*, FilterConfig_SafeBrowsing.*, Ratelimiter.*, filter.ConfigClient.*, filter.ConfigCustom.*, filter.ConfigParental.*, filter.ConfigRuleList.*, filter.ConfigSafeBrowsing.*
+//@   preserves agd.Profile.*, allelems(*agd.Profile), allelems(*Profile), FileCache.*, Device.*, allelems(*Device), AuthenticationSettings.*, Profile.*, FilterConfig.*, FilterConfig_Custom.*, FilterConfig_Parental.*, FilterConfig_RuleList.*, FilterConfig_SafeBrowsing.*, FilterConfig_Schedule.*, Access.*, CidrRange.*, Ratelimiter.*, allelems(*CidrRange), Access.*, allelems(uint32), allelems(*CidrRange), CidrRange.*, allelems(string), allelems(byte), allelems(netip.Prefix), allelems(geoip.ASN), access.ProfileConfig.*, Profile.*, FilterConfig.*, FilterConfig_Custom.*, FilterConfig_Parental.*, FilterConfig_RuleList.*, FilterConfig_SafeBrowsing.*, Ratelimiter.*, filter.ConfigClient.*, filter.ConfigCustom.*, filter.ConfigParental.*, filter.ConfigRuleList.*, filter.ConfigSafeBrowsing.*
 //@   ensures every-asn-in-order: len(out) == len(asns) && (forall i int :: 0 <= i && i < len(asns) ==> out[i] == asns[i])
 //@   loop 1 invariant -1 <= #i && #i < len(asns) && len(out) == #i + 1 && (#i >= 0 ==> fresh(out)) && (#i < 0 ==> arr(out) == 0)
 //@   loop 1 invariant forall j int :: 0 <= j && j <= #i ==> out[j] == asns[j]
@@ -98,7 +98,7 @@ package filecachepb
 //@   property C14
 //@   requires forall i int :: 0 <= i && i < len(cidrs) ==> cidrs[i] != nil && (len(cidrs[i].Address) == 4 || len(cidrs[i].Address) == 16)
 //@   modifies heap
-//@   preserves Access.*, allelems(uint32), allelems(*CidrRange), CidrRange.*, allelems(string), allelems(byte), allelems(netip.Prefix), allelems(geoip.ASN), access.ProfileConfig.*, Profile.*, FilterConfig.*, FilterConfig_Custom.*, FilterConfig_Parental.*, FilterConfig_RuleList.*, FilterConfig_SafeBrowsing.*, Ratelimiter.*, filter.ConfigClient.*, filter.ConfigCustom.*, filter.ConfigParental.*, filter.ConfigRuleList.*, filter.ConfigSafeBrowsing.*
+//@   preserves agd.Profile.*, allelems(*agd.Profile), allelems(*Profile), FileCache.*, Device.*, allelems(*Device), AuthenticationSettings.*, Profile.*, FilterConfig.*, FilterConfig_Custom.*, FilterConfig_Parental.*, FilterConfig_RuleList.*, FilterConfig_SafeBrowsing.*, FilterConfig_Schedule.*, Access.*, CidrRange.*, Ratelimiter.*, allelems(*CidrRange), Access.*, allelems(uint32), allelems(*CidrRange), CidrRange.*, allelems(string), allelems(byte), allelems(netip.Prefix), allelems(geoip.ASN), access.ProfileConfig.*, Profile.*, FilterConfig.*, FilterConfig_Custom.*, FilterConfig_Parental.*, FilterConfig_RuleList.*, FilterConfig_SafeBrowsing.*, Ratelimiter.*, filter.ConfigClient.*, filter.ConfigCustom.*, filter.ConfigParental.*, filter.ConfigRuleList.*, filter.ConfigSafeBrowsing.*
 //@   ensures every-network-as-stored: len(out) == len(cidrs) && (forall i int :: 0 <= i && i < len(cidrs) ==> out[i] == prefixFrom(addrFromBytes(strof(cidrs[i].Address)), cidrs[i].Prefix))
 //@   loop 1 invariant -1 <= #i && #i < len(cidrs) && len(out) == #i + 1 && (#i >= 0 ==> fresh(out)) && (#i < 0 ==> arr(out) == 0)
 //@   loop 1 invariant forall j int :: 0 <= j && j <= #i ==> out[j] == prefixFrom(addrFromBytes(strof(cidrs[j].Address)), cidrs[j].Prefix)
@@ -132,7 +132,7 @@ package filecachepb
 //@   nilrecv
 //@   requires x != nil ==> wellFormedRanges(x.AllowlistCidr) && wellFormedRanges(x.BlocklistCidr)
 //@   modifies heap
-//@   preserves Access.*, allelems(uint32), allelems(*CidrRange), CidrRange.*, allelems(string), allelems(byte), Profile.*, FilterConfig.*, FilterConfig_Custom.*, FilterConfig_Parental.*, FilterConfig_RuleList.*, FilterConfig_SafeBrowsing.*, Ratelimiter.*, filter.ConfigClient.*, filter.ConfigCustom.*, filter.ConfigParental.*, filter.ConfigRuleList.*, filter.ConfigSafeBrowsing.*
+//@   preserves agd.Profile.*, allelems(*agd.Profile), allelems(*Profile), FileCache.*, Device.*, allelems(*Device), AuthenticationSettings.*, Profile.*, FilterConfig.*, FilterConfig_Custom.*, FilterConfig_Parental.*, FilterConfig_RuleList.*, FilterConfig_SafeBrowsing.*, FilterConfig_Schedule.*, Access.*, CidrRange.*, Ratelimiter.*, allelems(*CidrRange), Access.*, allelems(uint32), allelems(*CidrRange), CidrRange.*, allelems(string), allelems(byte), Profile.*, FilterConfig.*, FilterConfig_Custom.*, FilterConfig_Parental.*, FilterConfig_RuleList.*, FilterConfig_SafeBrowsing.*, Ratelimiter.*, filter.ConfigClient.*, filter.ConfigCustom.*, filter.ConfigParental.*, filter.ConfigRuleList.*, filter.ConfigSafeBrowsing.*
 //@   ensures no-message-no-restrictions: x == nil ==> istype(a, access.EmptyProfile)
 //@   ensures what-was-stored-is-what-applies: x != nil ==> isptr(a, access.DefaultProfile) && asptr(a, access.DefaultProfile) != nil &&
 //@             readNets(asptr(a, access.DefaultProfile).allowedNets, x.AllowlistCidr) && readNets(asptr(a, access.DefaultProfile).blockedNets, x.BlocklistCidr) &&
@@ -250,19 +250,19 @@ package filecachepb
 
 //@ func blockingModeToInternal
 //@   modifies heap, lastIPs
-//@   preserves Profile.*, FilterConfig.*, FilterConfig_Custom.*, FilterConfig_Parental.*, FilterConfig_RuleList.*, FilterConfig_SafeBrowsing.*, FilterConfig_Schedule.*, FilterConfig_WeeklySchedule.*, DayInterval.*,
+//@   preserves agd.Profile.*, allelems(*agd.Profile), allelems(*Profile), FileCache.*, Device.*, allelems(*Device), AuthenticationSettings.*, Profile.*, FilterConfig.*, FilterConfig_Custom.*, FilterConfig_Parental.*, FilterConfig_RuleList.*, FilterConfig_SafeBrowsing.*, FilterConfig_Schedule.*, Access.*, CidrRange.*, Ratelimiter.*, allelems(*CidrRange), Profile.*, FilterConfig.*, FilterConfig_Custom.*, FilterConfig_Parental.*, FilterConfig_RuleList.*, FilterConfig_SafeBrowsing.*, FilterConfig_Schedule.*, FilterConfig_WeeklySchedule.*, DayInterval.*,
 //@             Access.*, CidrRange.*, Ratelimiter.*, allelems(*CidrRange), allelems(uint32), allelems(string), allelems(byte)
 //@ func (*Ratelimiter).toInternal
 //@   nilrecv
 //@   modifies heap
-//@   preserves Profile.*, FilterConfig.*, FilterConfig_Custom.*, FilterConfig_Parental.*, FilterConfig_RuleList.*, FilterConfig_SafeBrowsing.*, FilterConfig_Schedule.*, FilterConfig_WeeklySchedule.*, DayInterval.*,
+//@   preserves agd.Profile.*, allelems(*agd.Profile), allelems(*Profile), FileCache.*, Device.*, allelems(*Device), AuthenticationSettings.*, Profile.*, FilterConfig.*, FilterConfig_Custom.*, FilterConfig_Parental.*, FilterConfig_RuleList.*, FilterConfig_SafeBrowsing.*, FilterConfig_Schedule.*, Access.*, CidrRange.*, Ratelimiter.*, allelems(*CidrRange), Profile.*, FilterConfig.*, FilterConfig_Custom.*, FilterConfig_Parental.*, FilterConfig_RuleList.*, FilterConfig_SafeBrowsing.*, FilterConfig_Schedule.*, FilterConfig_WeeklySchedule.*, DayInterval.*,
 //@             Access.*, CidrRange.*, Ratelimiter.*, allelems(*CidrRange), allelems(uint32), allelems(string), allelems(byte), filter.ConfigClient.*, filter.ConfigCustom.*, filter.ConfigParental.*, filter.ConfigRuleList.*, filter.ConfigSafeBrowsing.*
 
 //@ func (*Profile).toInternal
 //@   property C14
 //@   requires pbWellFormed(x)
 //@   modifies heap, lastIPs
-//@   preserves Profile.*, FilterConfig.*, FilterConfig_Custom.*, FilterConfig_Parental.*, FilterConfig_RuleList.*, FilterConfig_SafeBrowsing.*, allelems(string)
+//@   preserves agd.Profile.*, allelems(*agd.Profile), allelems(*Profile), FileCache.*, Device.*, allelems(*Device), AuthenticationSettings.*, Profile.*, FilterConfig.*, FilterConfig_Custom.*, FilterConfig_Parental.*, FilterConfig_RuleList.*, FilterConfig_SafeBrowsing.*, FilterConfig_Schedule.*, Access.*, CidrRange.*, Ratelimiter.*, allelems(*CidrRange), Profile.*, FilterConfig.*, FilterConfig_Custom.*, FilterConfig_Parental.*, FilterConfig_RuleList.*, FilterConfig_SafeBrowsing.*, allelems(string)
 //@   ensures every-field-from-its-own: err == nil ==> prof != nil && prof.ID == x.ProfileId && len(prof.DeviceIDs) == len(x.DeviceIds) &&
 //@             prof.FilteredResponseTTL == durVal[x.FilteredResponseTtl] &&
 //@             prof.AutoDevicesEnabled == x.AutoDevicesEnabled && prof.BlockChromePrefetch == x.BlockChromePrefetch && prof.BlockFirefoxCanary == x.BlockFirefoxCanary &&
@@ -346,3 +346,19 @@ package filecachepb
 //@   ensures the-file-is-replaced-by-one-atomic-write: err == nil ==> atomicWrites == old(atomicWrites) + 1
 //@   ensures a-failed-store-leaves-the-previous-file: err != nil ==> fileBytes[old(s.path)] == old(fileBytes[s.path])
 //@   ensures no-other-file-is-touched: forall p string :: p != old(s.path) ==> fileBytes[p] == old(fileBytes[p])
+
+// The way back: every stored profile and device is read in order, or the whole
+// load fails; nothing is skipped, nothing is read twice.
+//@ func profilesToInternal
+//@   property C14
+//@   requires forall i int :: 0 <= i && i < len(pbProfiles) ==> pbWellFormed(pbProfiles[i])
+//@   modifies heap, lastIPs
+//@   preserves agd.Profile.*, allelems(*agd.Profile), allelems(*Profile), FileCache.*, Device.*, allelems(*Device), AuthenticationSettings.*, Profile.*, FilterConfig.*, FilterConfig_Custom.*, FilterConfig_Parental.*, FilterConfig_RuleList.*, FilterConfig_SafeBrowsing.*, FilterConfig_Schedule.*, Access.*, CidrRange.*, Ratelimiter.*, allelems(*CidrRange), allelems(string)
+//@   ensures every-stored-profile-in-order-or-an-error: err == nil ==> len(profiles) == len(pbProfiles) && (forall i int :: 0 <= i && i < len(pbProfiles) ==>
+//@             profiles[i] != nil && profiles[i].ID == pbProfiles[i].ProfileId && profiles[i].Deleted == pbProfiles[i].Deleted && profiles[i].FilteringEnabled == pbProfiles[i].FilteringEnabled &&
+//@             profiles[i].QueryLogEnabled == pbProfiles[i].QueryLogEnabled && profiles[i].IPLogEnabled == pbProfiles[i].IpLogEnabled)
+//@   ensures err != nil ==> profiles == nil
+//@   loop 1 invariant -1 <= #i && #i < len(pbProfiles) && len(profiles) == #i + 1 && fresh(profiles) && (#i < 0 ==> arr(profiles) == 0 || true)
+//@   loop 1 invariant forall i int :: 0 <= i && i < len(pbProfiles) ==> pbWellFormed(pbProfiles[i])
+//@   loop 1 invariant forall j int :: 0 <= j && j <= #i ==> profiles[j] != nil && profiles[j].ID == pbProfiles[j].ProfileId && profiles[j].Deleted == pbProfiles[j].Deleted &&
+//@             profiles[j].FilteringEnabled == pbProfiles[j].FilteringEnabled && profiles[j].QueryLogEnabled == pbProfiles[j].QueryLogEnabled && profiles[j].IPLogEnabled == pbProfiles[j].IpLogEnabled
